@@ -213,3 +213,41 @@ pub fn law<O: Lbl, A: Lbl>(
     expect_iso(ctx, name, "law", class, &pl, &pr, input);
     Some(pl)
 }
+
+/// A diagram produced by a *pipeline of library operations* instead of being written down field by field:
+/// (f ; g) | h, or (f | h) ; (g | id), daggered twice, pushed through the lax representation (right-nested lax
+/// composition, quotient) and through the library's identity functor -- with predicates asked of the parts on the
+/// way. Whatever comes out is read back field by field; a monitor then judges its own operation on that value
+/// against the oracle applied to what was read. Returns None when the pipeline itself misbehaves (other
+/// monitors own that).
+pub fn library_built<A: Lbl>(r: &mut Rng, f: &POh<u32, A>, g: &POh<u32, A>, h: &POh<u32, A>) -> Option<(SOh<u32, A>, POh<u32, A>, &'static str)> {
+    use open_hypergraphs::category::{Arrow, Monoidal, Spider};
+    use open_hypergraphs::lax;
+    use open_hypergraphs::strict::functor::Functor;
+    let (lf, lg, lh) = (to_strict(f), to_strict(g), to_strict(h));
+    let which = r.below(5);
+    let res = guard(|| -> Option<SOh<u32, A>> {
+        // (structural predicates are queried on the operands first: they must not leave anything behind)
+        let _ = (lf.is_acyclic(), lg.is_acyclic(), lh.is_acyclic());
+        Some(match which {
+            0 => lf.compose(&lg)?.tensor(&lh),
+            1 => lf.tensor(&lh).compose(&lg.tensor(&SOh::identity(lh.target())))?,
+            2 => lf.compose(&lg)?.dagger().dagger().tensor(&lh),
+            3 => {
+                // through the lax representation: f ; (g ; id) right-nested, tensored, then made strict by the library
+                let (xf, xg, xh) = (lax::OpenHypergraph::from_strict(lf.clone()), lax::OpenHypergraph::from_strict(lg.clone()), lax::OpenHypergraph::from_strict(lh.clone()));
+                let idb = lax::OpenHypergraph::identity(Arrow::target(&xg));
+                let inner = Arrow::compose(&xg, &idb)?;
+                let c = Arrow::compose(&xf, &inner)?;
+                xh.tensor(&c).to_strict()
+            }
+            _ => open_hypergraphs::strict::functor::identity::Identity.map_arrow(&lf.compose(&lg)?.tensor(&lh)),
+        })
+    });
+    let x = match res {
+        Ok(Some(x)) => x,
+        _ => return None,
+    };
+    let p = from_strict(&x).ok()?;
+    Some((x, p, ["(f;g)|h", "(f|h);(g|id)", "((f;g)++)|h", "h|(f;(g;id)) via lax", "Id((f;g)|h)"][which]))
+}
